@@ -4,7 +4,7 @@ import os, re, subprocess, sys
 VERIF = sys.argv[1] if len(sys.argv) > 1 else os.path.dirname(os.path.dirname(os.path.dirname(os.path.abspath(__file__))))
 H = [
  ('h1', ['C02', 'C04'], 'src/DHLLDV/heterogeneous.py', lambda s: re.sub(r'\bvt\b', 'v_term', s), 'rename local vt -> v_term throughout heterogeneous.py'),
- ('h2', ['C03', 'C04'], 'src/DHLLDV/homogeneous.py', lambda s: s.replace("    return lmbda * vls ** 2 / (2 * gravity * Dp)", "    two_g_D = 2 * gravity * Dp\n    return lmbda * vls ** 2 / two_g_D") if "    return lmbda * vls ** 2 / (2 * gravity * Dp)" in s else None, 'hoist 2 g Dp into a local in fluid_head_loss'),
+ ('h2', ['C03', 'C04'], 'src/DHLLDV/homogeneous.py', lambda s: s.replace("    return lmbda * vls**2 / (2 * gravity * Dp)  # Eqn 8.2-6 / 8.7-5", "    two_g_D = 2 * gravity * Dp\n    return lmbda * vls**2 / two_g_D  # Eqn 8.2-6 / 8.7-5", 1) if "    return lmbda * vls**2 / (2 * gravity * Dp)  # Eqn 8.2-6 / 8.7-5" in s else None, 'hoist 2 g Dp into a local in fluid_head_loss'),
  ('h3', ['C09', 'C14'], 'src/DHLLDV/PipeObj.py', lambda s: s.replace("                Hfit_m += p.total_K * Hv * self.slurry.rhom\n                Hfit_l += p.total_K * Hv * self.slurry.rhol\n", "                Hfit_l += p.total_K * Hv * self.slurry.rhol\n                Hfit_m += p.total_K * Hv * self.slurry.rhom\n"), 'swap two independent statements in calc_system_head'),
  ('h4', ['C17'], 'DHLLDV_viewer/main.py', lambda s: s.replace("    Cvi = (slurry.rhoi - slurry.rhol) / (slurry.rhos - slurry.rhol)\n", "    cvi_before = (slurry.rhoi - slurry.rhol) / (slurry.rhos - slurry.rhol)\n").replace("    slurry.rhoi = Cvi * (slurry.rhos - slurry.rhol) + slurry.rhol\n", "    slurry.rhoi = cvi_before * (slurry.rhos - slurry.rhol) + slurry.rhol\n"), 'rename a local in update_rhos'),
  ('h5', ['C01', 'C05'], 'src/DHLLDV/DHLLDV_framework.py', lambda s: s.replace("    if Erhg_obj[regime] < Erhg_obj['Ho']:\n        regime = 'Ho'\n", "    if Erhg_obj['Ho'] > Erhg_obj[regime]:\n        regime = 'Ho'\n"), 'a < b written as b > a in the selection'),
@@ -16,7 +16,10 @@ H = [
  ('h12', ['C12', 'C07'], 'src/DHLLDV/SlurryObj.py', lambda s: s.replace("        if frac <= 0 or frac >= 1.0:\n", "        if frac >= 1.0 or frac <= 0:\n", 1), 'swap the operands of an or in get_dx'),
  ('h8', ['C20'], 'src/Wilson/Wilson_V50.py', lambda s: s.replace("    return max(0.25, min(1.7, _M))", "    clipped = min(1.7, _M)\n    return max(0.25, clipped)"), 'introduce a local in M'),
 ]
+ONLY = set(os.environ.get('HARMLESS_ONLY', '').split(',')) - {''}
 for hid, props, rel, f, what in H:
+    if ONLY and hid not in ONLY:
+        continue
     wt = f'/tmp/wt-h-{hid}-{os.getpid()}'
     subprocess.run(f'git -C /repo worktree add -q {wt} HEAD', shell=True)
     try:
